@@ -671,6 +671,8 @@ def build_unit(unit, outdir, ghost_override=None, variant=None):
                 # named function) are taken verbatim as the body of a function of their free variables
                 _, srcfile, label, rest_ = line.split(None, 3)
                 hdr, first, last, sig, tail = [x.strip() for x in rest_.split(";;")]
+                if tail == "-":
+                    tail = ""   # the block is a statement list; the function returns ()
                 whole, f0, _f1 = extract_item(srcfile, hdr, 0)
                 wl = whole.split("\n")
                 # `<last line> +N`: N more lines after the anchor line (closing braces of a tail expression)
@@ -679,7 +681,11 @@ def build_unit(unit, outdir, ghost_override=None, variant=None):
                 if mm:
                     last, more = mm.group(1), int(mm.group(2))
                 try:
-                    i0 = next(k for k, l in enumerate(wl) if l.strip() == first)
+                    if first.startswith("after:"):
+                        # structural start: the line following the one with that text (e.g. a loop header)
+                        i0 = next(k for k, l in enumerate(wl) if l.strip() == first[6:].strip()) + 1
+                    else:
+                        i0 = next(k for k, l in enumerate(wl) if l.strip() == first)
                     i1 = next(k for k, l in enumerate(wl) if k >= i0 and l.strip() == last) + more
                 except StopIteration:
                     raise Undecided("lost slice anchor in %s (%s): `%s` .. `%s`" % (srcfile, label, first, last))
